@@ -49,7 +49,8 @@ Ltac simp :=
   repeat match goal with x := _ |- _ => subst x end;
   cbn [chans senders subs streams adds drops tasks reader socket incoming dead cloned
        with_chans with_senders with_subs with_streams with_adds with_drops with_tasks with_reader with_socket with_incoming
-       with_dead with_cloned set_chan bury rm_sender mk_stream got_more add_at s_rule s_ch s_from s_got a_rule a_q a_pc] in *.
+       with_dead with_cloned set_chan bury mk_stream got_more add_at s_rule s_ch s_from s_got a_rule a_q a_pc] in *;
+  autorewrite with rms in *.
 
 (* what remove_match does to the tables *)
 Lemma rm_spec_tables s r s1 o : rm_spec s r s1 o ->
@@ -104,7 +105,7 @@ Notation Inv := (Inv.Inv matches).
 Lemma g_len_step s l s' : tstep s l s' -> Inv s -> 2 <= length (chans s').
 Proof.
   intros Hs I. pose proof (inv_len _ _ I) as H.
-  destruct Hs; simp; rewrite ?length_upd, ?length_close_all, ?app_length; cbn [length]; try lia;
+  destruct Hs; simp; rewrite ?length_upd, ?length_close_all, ?app_length; autorewrite with rms; cbn [length]; try lia;
     try (match goal with Hr : rm_apply _ _ = _ |- _ => apply rm_apply_spec, rm_spec_tables in Hr; destruct Hr as (_ & _ & _ & _ & _ & Hl & _) end;
          rewrite ?length_upd; lia).
 Qed.
@@ -112,7 +113,7 @@ Qed.
 Lemma len_mono s l s' : tstep s l s' -> length (chans s) <= length (chans s').
 Proof.
   intros Hs.
-  destruct Hs; simp; rewrite ?length_upd, ?length_close_all, ?app_length; cbn [length]; try lia;
+  destruct Hs; simp; rewrite ?length_upd, ?length_close_all, ?app_length; autorewrite with rms; cbn [length]; try lia;
     try (match goal with Hr : rm_apply _ _ = _ |- _ => apply rm_apply_spec, rm_spec_tables in Hr; destruct Hr as (_ & _ & _ & _ & _ & Hl & _) end;
          rewrite ?length_upd; lia).
 Qed.
@@ -248,7 +249,7 @@ Proof.
     + left. rewrite (Eoth _ Hne). eauto.
   - (* async drop, sender step *)
     apply in_del_key in Hin. destruct Hin as [Hin Hne]. cbn in Hne. destruct (Hreg _ _ Hin) as [Hl'|Hr]; [now left | right].
-    destruct Hr as [(sid' & st' & Hd' & Hs' & Hr')|Hr]; [left | now right].
+    destruct Hr as [(sid' & st' & Hd' & Hs' & Hr')|Hr]; [left | right; simp; exact Hr].
     assert (sid' <> sid) by (intros ->; rewrite H in Hs'; inversion Hs'; subst; congruence).
     exists sid', st'. simp. rewrite !lookup_del_other by assumption. tauto.
   - (* task, subs step, done *)
@@ -264,7 +265,7 @@ Proof.
     + left. rewrite (Eoth _ Hne). eauto.
   - (* task, sender step *)
     apply in_del_key in Hin. destruct Hin as [Hin Hne]. cbn in Hne. destruct (Hreg _ _ Hin) as [Hl'|Hr]; [now left | right].
-    destruct Hr as [Hr|Hr]; [left; exact Hr | right]. simp. eapply in_del_nth_keep; eauto. congruence.
+    destruct Hr as [Hr|Hr]; [left; simp; exact Hr | right]. simp. eapply in_del_nth_keep; eauto. congruence.
 Qed.
 
 (* how `subscriptions` can change in one step *)
@@ -366,7 +367,7 @@ Proof.
       * right. now rewrite Etsk in Hr.
   - (* async drop, subs, wait *) rm_tables. right. right. split; [assumption|]. intros sid' r' c' Ha. apply (not_busy_a2 s sid' r' c'); [assumption|].
     eapply a2_ext; [|exact Ha]. simp. assumption.
-  - (* async drop, sender *) left. split; [intros; assumption|]. intros r' c' [(sid' & st' & Hd' & Hs' & Hr')|Hr]; [left | now right]. simp.
+  - (* async drop, sender *) left. split; [intros sid0 r0 c0; apply a2_ext; simp; reflexivity|]. intros r' c' [(sid' & st' & Hd' & Hs' & Hr')|Hr]; [left | right; simp; exact Hr]. simp.
     destruct (Nat.eq_dec sid' sid) as [->|Hne]; [now rewrite lookup_del_same in Hd'|]. rewrite lookup_del_other in Hd' by assumption. rewrite lookup_del_other in Hs' by assumption.
     exists sid', st'. tauto.
   - (* task, subs, done *) rm_tables. left. split.
@@ -376,7 +377,7 @@ Proof.
       * right. eapply in_del_nth; eassumption.
   - (* task, subs, wait *) rm_tables. right. right. split; [assumption|]. intros sid' r' c' Ha. apply (not_busy_a2 s sid' r' c'); [assumption|].
     eapply a2_ext; [|exact Ha]. simp. assumption.
-  - (* task, sender *) left. split; [intros; assumption|]. intros r' c' [(sid' & st' & Hd' & Hs' & Hr')|Hr]; [left | right]; simp.
+  - (* task, sender *) left. split; [intros sid0 r0 c0; apply a2_ext; simp; reflexivity|]. intros r' c' [(sid' & st' & Hd' & Hs' & Hr')|Hr]; [left | right]; simp.
     + exists sid', st'. tauto.
     + eapply in_del_nth; eassumption.
 Qed.
